@@ -448,11 +448,28 @@ fn serialise_router_advertisement(a: &RtrAdvertisement) -> Vec<u8> {
             NDOptionValue::DnsSearchList((lifetime, suffixes)) => {
                 let mut dnssl = Serialise::default();
                 for suffix in suffixes {
+                    /* RFC1035 Section 3.1: a label is 1 to 63 octets, anything else cannot be
+                     * written as a domain name (and would change the meaning of what follows).
+                     */
+                    if suffix
+                        .split('.')
+                        .any(|label| label.is_empty() || label.len() > 63)
+                    {
+                        log::warn!(
+                            "DNS search domain {:?} is not a valid domain name, ignoring",
+                            suffix
+                        );
+                        continue;
+                    }
                     for label in suffix.split('.') {
                         dnssl.serialise(label.len() as u8);
                         dnssl.serialise(label);
                     }
                     dnssl.serialise(0_u8);
+                }
+                /* RFC8106 Section 5.2: the option carries one or more domain names. */
+                if dnssl.v.is_empty() {
+                    continue;
                 }
                 // Pad with 0x00 to the full size.
                 while dnssl.v.len() % 8 != 0 {
